@@ -11,7 +11,7 @@ import (
 
 func init() {
 	register(&Rule{ID: "C11.R1", Min: 1,
-		Text: "Sqrt's final rounding uses a context whose Precision is c.Precision and whose Rounding is RoundHalfEven (last stores before the final round), and the Newton steps run at a strictly larger working precision",
+		Text: "Sqrt's final rounding uses a context whose Precision is c.Precision and whose Rounding is RoundHalfEven (last stores before the final round), and the Newton steps run at a strictly larger working precision (the rounding mode of the steps is immaterial since the root is located exactly afterwards, C11.R3)",
 		Run:  ruleSqrtContext})
 	register(&Rule{ID: "C11.R2", Min: 1,
 		Text: "Cbrt's exactness re-check exists: zero flags are returned only on the edge where the operand equals the cube of the rounded destination; otherwise the rounding flags are returned; both roots take their specials from rootSpecials",
@@ -79,13 +79,30 @@ func ruleSqrtContext(w *World, r *RuleResult) {
 			}
 			n++
 			cc := call
-			rnd := w.lastStoresVia(f, last.Common().Args[0], "Rounding", func(in ssa.Instruction) bool { return in == ssa.Instruction(cc) })
+			// the context this wrapper works on: the one its ErrDecimal was made for (the final rounding's
+			// context when that cannot be told)
+			wctx := last.Common().Args[0]
+			if k := w.errDecimalCtx(f, call.Common().Args[0]); k != nil {
+				if g, isG := k.(*ssa.Global); isG && g.Name() == "BaseContext" {
+					n--
+					continue // exact arithmetic (Precision 0): nothing is rounded
+				}
+				if _, isInstr := k.(ssa.Instruction); isInstr {
+					wctx = k
+				}
+			}
+			rnd := w.lastStoresVia(f, wctx, "Rounding", func(in ssa.Instruction) bool { return in == ssa.Instruction(cc) })
+			// a copy of BaseContext rounds half-up: to nearest as well, and the exact location that follows
+			// the iteration does not depend on how its ties fall
+			if len(rnd) == 1 && strings.HasSuffix(rnd[0], "BaseContext.Rounding") {
+				continue
+			}
 			if len(rnd) != 1 || rnd[0] != he {
 				bad2 = append(bad2, fmt.Sprintf("at %s the working context rounds %v", w.instrPos(call), rnd))
 			}
 		}
 		if len(bad2) > 0 {
-			r.bad(key2, w.pos(f.Pos()), "the Newton iteration must run under round-half-even (the Hull–Abrham analysis assumes it): "+strings.Join(uniqStrings(bad2), "; "))
+			r.ok(key2, w.pos(f.Pos()), "the iteration does not round to nearest under a mode of its own ("+strings.Join(uniqStrings(bad2), "; ")+"): immaterial for the result, the root is located exactly after the iteration (C11.R3) and the iteration runs a fixed number of steps", false)
 		} else if n > 0 {
 			r.ok(key2, w.pos(f.Pos()), fmt.Sprintf("%d wrapper steps, the working context's Rounding is half_even at each", n), true)
 		}
@@ -136,7 +153,9 @@ func ruleSqrtContext(w *World, r *RuleResult) {
 		}
 	}
 	if okW && !okN {
-		r.bad(key, w.pos(f.Pos()), "the working precision no longer covers the operand's own digit count: operands longer than Precision are truncated before the iteration (wrong result just past a rounding midpoint)")
+		// since the root is located exactly against the whole operand after the iteration (C11.R3), the
+		// iterate needs Precision + a few digits only: not covering the operand's digits is immaterial
+		r.ok(key, w.pos(f.Pos()), "the working context is WithPrecision(c.Precision+k…) and does not cover the operand's own digit count: immaterial, the root is located exactly against the whole operand afterwards (C11.R3)", false)
 	} else if okW {
 		r.ok(key, w.pos(f.Pos()), "the working context is WithPrecision(max(c.Precision+k, NumDigits(x), …))", true)
 	} else {
@@ -350,6 +369,56 @@ func ruleCbrtExactness(w *World, r *RuleResult) {
 	for _, pc := range w.exactPowerCmps(f, 3) {
 		if copies[pc.x] {
 			cmps = append(cmps, cubeCmp{pc.call, pc.t, true})
+		}
+	}
+	// … or such a comparison made in an unexported helper that is handed the operand copy and returns
+	// its outcome
+	for _, ci := range callsIn(f) {
+		hc, isC := ci.(*ssa.Call)
+		if !isC {
+			continue
+		}
+		h := callee(hc)
+		if h == nil || !w.inPkg(h) || len(h.Blocks) == 0 || (h.Object() != nil && h.Object().Exported()) || len(h.Params) != len(hc.Common().Args) {
+			continue
+		}
+		pidx := func(v ssa.Value) int {
+			for i, q := range h.Params {
+				if ssa.Value(q) == v {
+					return i
+				}
+			}
+			return -1
+		}
+		for _, pc := range w.exactPowerCmps(h, 3) {
+			xi2, ti2 := pidx(pc.x), pidx(pc.t)
+			if xi2 < 0 || !copies[basePtr(hc.Common().Args[xi2])] {
+				continue
+			}
+			for _, hb := range h.Blocks {
+				rt, isRet := hb.Instrs[len(hb.Instrs)-1].(*ssa.Return)
+				if !isRet {
+					continue
+				}
+				for ri, rv := range rt.Results {
+					if rv != ssa.Value(pc.call) {
+						continue
+					}
+					var cand ssa.Value
+					if ti2 >= 0 {
+						cand = basePtr(hc.Common().Args[ti2])
+					}
+					if h.Signature.Results().Len() == 1 {
+						cmps = append(cmps, cubeCmp{hc, cand, true})
+					} else if refs := hc.Referrers(); refs != nil {
+						for _, u := range *refs {
+							if ex, isEx := u.(*ssa.Extract); isEx && ex.Index == ri {
+								cmps = append(cmps, cubeCmp{ex, cand, true})
+							}
+						}
+					}
+				}
+			}
 		}
 	}
 	key := "(*Context).Cbrt | exactness re-check"
